@@ -50,7 +50,7 @@ static void verif_delete(uint8_t* p) {
  * assertion failure ("bound"), never silently truncated. Symbolic-size heap objects send CBMC into its array theory. */
 /* opt-in (unit gen_defs=['VERIF_NEW_U64']): the block is allocated as uint64_t[VERIF_NEW_BLOCK/8] instead of bytes (same
  * memory; CBMC types the object as an array of words, which stays field-sensitive up to 64 words = new_block 512).
- * opt-in (gen_defs=['VERIF_NEW_U64', 'VERIF_NEW_ZERO']): additionally the block is zero-filled word by word. CBMC's
+ * opt-in (gen_defs=['VERIF_NEW_ZERO'], with or without VERIF_NEW_U64): the block is zero-filled. CBMC's
  * symbolic execution constant-folds reads from a heap object only when its content is concrete; with zero-filled word
  * blocks the pointer/size members of std::string / std::vector / the container shims fold and loops over them stop at
  * their real bound (measured: Arguments(1 token) 200k steps + solver out of memory -> 6k steps, 1 s). The price is part of
@@ -62,14 +62,30 @@ static void verif_delete(uint8_t* p) {
 #else
 #define VERIF_NEW_MALLOC() malloc(VERIF_NEW_BLOCK)
 #endif
-#if defined(VERIF_NEW_U64) && defined(VERIF_NEW_ZERO)
+#if defined(VERIF_NEW_ZERO)
 #if VERIF_NEW_BLOCK > 512
 #error "VERIF_NEW_ZERO supports new_block <= 512"
 #endif
-/* straight-line (no loop: --unwind applies to every loop) */
-#define VERIF_Z1(i) if ((i) < VERIF_NEW_WORDS) w[(i)] = 0;
+/* straight-line (no loop: --unwind applies to every loop). Without VERIF_NEW_U64 the fill is byte-wise: together with
+ * cbmc --max-field-sensitivity-array-size 512 every byte of the block is its own SSA symbol, so a concrete byte next to
+ * symbolic ones (std::string SSO buffers) still folds; word blocks only fold whole words. */
+#ifdef VERIF_NEW_U64
+#define VERIF_ZN VERIF_NEW_WORDS
+#define VERIF_ZT uint64_t
+#else
+#define VERIF_ZN VERIF_NEW_BLOCK
+#define VERIF_ZT uint8_t
+#endif
+#define VERIF_Z1(i) if ((i) < VERIF_ZN) w[(i)] = 0;
 #define VERIF_Z8(i) VERIF_Z1(i) VERIF_Z1(i + 1) VERIF_Z1(i + 2) VERIF_Z1(i + 3) VERIF_Z1(i + 4) VERIF_Z1(i + 5) VERIF_Z1(i + 6) VERIF_Z1(i + 7)
-static void verif_new_fill(uint8_t* p) { uint64_t* w = (uint64_t*)p; VERIF_Z8(0) VERIF_Z8(8) VERIF_Z8(16) VERIF_Z8(24) VERIF_Z8(32) VERIF_Z8(40) VERIF_Z8(48) VERIF_Z8(56) }
+#define VERIF_Z64(i) VERIF_Z8(i) VERIF_Z8(i + 8) VERIF_Z8(i + 16) VERIF_Z8(i + 24) VERIF_Z8(i + 32) VERIF_Z8(i + 40) VERIF_Z8(i + 48) VERIF_Z8(i + 56)
+static void verif_new_fill(uint8_t* p) {
+  VERIF_ZT* w = (VERIF_ZT*)p;
+  VERIF_Z64(0)
+#ifndef VERIF_NEW_U64
+  VERIF_Z64(64) VERIF_Z64(128) VERIF_Z64(192) VERIF_Z64(256) VERIF_Z64(320) VERIF_Z64(384) VERIF_Z64(448)
+#endif
+}
 #else
 #define verif_new_fill(p) ((void)0)
 #endif
